@@ -1,5 +1,5 @@
 (** C01: the generated parser recognises exactly the grammar's PEG language. *)
-From PegV Require Import Base.Tac Spec.Syntax Spec.Peg Model.Machine Model.Gen Proofs.Top Properties.Example.
+From PegV Require Import Base.Tac Spec.Syntax Spec.Peg Spec.WF Model.Machine Model.Gen Proofs.Top Properties.Example.
 
 (** For every grammar the default generator handles (no switch nodes, literals are code points),
     every rune list, every rule used as entry whose slot holds a function, every memo / inline
@@ -17,6 +17,24 @@ Theorem C01_machine_is_peg :
     end.
 Proof. exact c01_verdict_prefix. Qed.
 Print Assumptions C01_machine_is_peg.
+
+(** Totality: a grammar is well-formed when [wf_b] accepts it with some certificate (nullability table
+    + rank per rule): no rule reaches itself through head positions, no repetition of an expression
+    that may succeed without consuming, every referenced rule is defined.  On such a grammar the
+    semantics has a result for every input and entry rule, so the statement above is unconditional:
+    the machine terminates with the verdict and prefix of the PEG semantics. *)
+Theorem C01_total :
+  forall g ptx buf penv, good_grammar g -> good_buf buf ->
+  forall tab rank memo inline r rb st0,
+    wf_b g tab rank = true -> nth_error g r = Some rb -> rb <> RNil -> slot_ok g inline r ->
+    exists n rr b st', peg_parse g ptx buf penv n r = Some rr /\
+      machine g ptx buf penv memo inline n r st0 = Some (Ret b st') /\
+      (b = true <-> exists p f, fst rr = Succ p f /\ pos st' = p).
+Proof. exact c01_total_machine. Qed.
+Print Assumptions C01_total.
+
+Example C01_wf_nonvacuous : wf_auto ex_g = true.
+Proof. vm_compute. reflexivity. Qed.
 
 (** non-vacuity: the example grammar accepts "aby" consuming 3 runes and rejects "abz",
     from the first rule and from rule 1 used as entry *)
